@@ -1,6 +1,7 @@
 mod alloc;
 mod bench;
 mod common;
+mod entrylist;
 mod num;
 mod pool;
 mod pure;
@@ -52,6 +53,7 @@ fn main() {
                     "pure" => pure::run(&sc, &mut out, &mut stats),
                     "stats" => stats::run(&sc, &mut out),
                     "alloc" => common::run_scenario(&sc, &mut out, &mut stats, alloc::body),
+                    "entrylist" => common::run_scenario(&sc, &mut out, &mut stats, entrylist::body),
                     "fwd" => common::run_scenario(&sc, &mut out, &mut stats, alloc::fwd_body),
                     other => {
                         eprintln!("unknown scenario kind {other:?}");
